@@ -927,3 +927,75 @@ Proof.
   rewrite IH by (apply save_in_wf; split; [apply of_list_sorted|exact Hn]).
   rewrite save_lookup by exact Hn. reflexivity.
 Qed.
+
+(* ------------------------------------------------------------------ strict sequential-wins *)
+Lemma lookup_none_files : forall fs k, (forall f, In f fs -> ~ In k (keys f)) -> lookup fs k = None.
+Proof.
+  intros fs k H. destruct (lookup fs k) eqn:E; [|reflexivity]. exfalso.
+  assert (Hh : has fs k) by (unfold has; congruence).
+  apply has_files in Hh. destruct Hh as [f [Hf Hk]]. exact (H f Hf Hk).
+Qed.
+
+Lemma lookup_some_in : forall fs k v, lookup fs k = Some v -> exists f, In f fs /\ find k f = Some v.
+Proof.
+  induction fs as [|e r IH]; intros k v H; simpl in H; [discriminate|].
+  destruct (find k e) eqn:E.
+  - inversion H; subst. exists e. split; [left; reflexivity|exact E].
+  - destruct (IH _ _ H) as [f [Hf Hk]]. exists f. split; [right; exact Hf|exact Hk].
+Qed.
+
+(** The other side's value for [k] can displace [m]'s only if it physically sits in a segment
+    of [o] that the walk did not recognise as shared with [m]'s chain ... *)
+Lemma merge_other_only_unshared : forall m o k v, wf_table o ->
+  lookup_mt (merge_in m o) k = Some v ->
+  lookup_mt m k = Some v \/ exists f, In f (walk (m_parent m) o) /\ find k f = Some v.
+Proof.
+  intros m o k v Hwf H. rewrite merge_in_lookup in H by exact Hwf.
+  destruct (lookup (walk (m_parent m) o) k) as [v'|] eqn:E; [|left; exact H].
+  inversion H; subst. right. apply lookup_some_in. exact E.
+Qed.
+
+(** ... so when no unshared segment of [o] holds [k] (the other side neither wrote [k] since
+    the fork nor had it re-recorded there by a squash), [m]'s value is kept. *)
+Lemma merge_own_value_wins : forall m o k, wf_table o ->
+  (forall f, In f (walk (m_parent m) o) -> ~ In k (keys f)) ->
+  lookup_mt (merge_in m o) k = lookup_mt m k.
+Proof.
+  intros m o k Hwf H. rewrite merge_in_lookup by exact Hwf.
+  rewrite (lookup_none_files _ _ H). reflexivity.
+Qed.
+
+Lemma fold_merge_parent : forall others m, m_parent (fold_left merge_in others m) = m_parent m.
+Proof. induction others as [|o r IH]; intros m; simpl; [reflexivity|]. rewrite IH. reflexivity. Qed.
+
+Lemma fold_merge_wf : forall others m, wf_mt m -> Forall wf_table others -> wf_mt (fold_left merge_in others m).
+Proof.
+  induction others as [|o r IH]; intros m Hm Ho; simpl; [exact Hm|].
+  inversion Ho; subst. apply IH; [apply merge_in_wf; assumption|assumption].
+Qed.
+
+(** Reconciliation: the value of the first head (whatever its own history made of [k]:
+    by [sequential_wins] its causally last save) survives unless another head physically
+    holds [k] in a segment not shared with it. *)
+Lemma reconcile_own_value_wins : forall t0 others k,
+  wf_table t0 -> Forall wf_table others ->
+  (forall o f, In o others -> In f (walk t0 o) -> ~ In k (keys f)) ->
+  lookup (reconcile t0 others) k = lookup t0 k.
+Proof.
+  intros t0 others k H0 Ho Hk. unfold reconcile.
+  assert (Hwf0 : wf_mt (mk_mt t0 [])) by (split; [constructor|exact H0]).
+  rewrite save_in_lookup by (apply fold_merge_wf; assumption).
+  assert (Hgen : forall l m, wf_mt m -> m_parent m = t0 -> Forall wf_table l ->
+            (forall o f, In o l -> In f (walk t0 o) -> ~ In k (keys f)) ->
+            lookup_mt (fold_left merge_in l m) k = lookup_mt m k).
+  { induction l as [|o r IH]; intros m Hm Hp Hl Hkk; simpl; [reflexivity|].
+    apply Forall_cons_iff in Hl. destruct Hl as [Ho1 Hr1].
+    rewrite (IH (merge_in m o)).
+    - apply merge_own_value_wins; [exact Ho1|]. intros f Hf. apply (Hkk o f); [left; reflexivity|].
+      rewrite <- Hp. exact Hf.
+    - apply merge_in_wf; assumption.
+    - exact Hp.
+    - exact Hr1.
+    - intros o' f Ho' Hf. apply (Hkk o' f); [right; exact Ho'|exact Hf]. }
+  rewrite Hgen; auto.
+Qed.
